@@ -340,6 +340,13 @@ func (b *BaseType) UnmarshalJSON(data []byte) error {
 	if err != nil {
 		return err
 	}
+	if bt.Enum != nil {
+		var raw map[string]interface{}
+		if err := unmarshalExact(data, &raw); err != nil {
+			return err
+		}
+		bt.Enum = raw["enum"]
+	}
 
 	if bt.Enum != nil {
 		// 'enum' is a list or a single element representing a list of exactly one element
